@@ -1,6 +1,6 @@
 From Coq Require Import ZArith List Bool Lia.
 From Arsenal Require Import Util.
-From Arsenal Require VamDev VamBlockList Vam VamInv VamInvThm VamAcctThm VamMap VamMapThm VamDefrag VamDefragThm VamDefragAcct VamDefragMap VamHvThm VamDefragHv VamFlush VamFlushThm.
+From Arsenal Require VamDev VamBlockList Vam VamInv VamInvThm VamAcctThm VamMap VamMapThm VamDefrag VamDefragThm VamDefragAcct VamDefragMap VamHvThm VamDefragHv VamFlush VamFlushThm VamBindCreate.
 From Arsenal Require Import SyncMem SyncMemProofs.
 Import ListNotations.
 Open Scope Z_scope.
@@ -121,6 +121,18 @@ Theorem C08_allocator_bind_valid : forall c v s image res off f v' r calls,
      (a_kind (get_alloc v s) = 1 -> o mod a_align (get_alloc v s) = 0)).
 Proof. intros c v s image res off f v' r calls Ha. exact (VamFlushThm.bind_never_panics c Ha v s image res off f v' r calls). Qed.
 Print Assumptions C08_allocator_bind_valid.
+(* the bind inside CreateBuffer / CreateImage (without DontBind): the last driver call of a successful creation is
+   the bind of the new resource to the new Allocation's own live memory object at the Allocation's own offset;
+   the range lies inside the object; a block allocation is aligned as placed, a dedicated one starts at 0 *)
+Theorem C08_allocator_create_bind_valid : forall c v o f v' calls,
+  cfg_acct c -> reachA c v -> op_ok v o -> step c v o f = (v', ROk, calls) ->
+  match o with
+  | OCreateBuf slot _ _ _ _ _ flags _ _ _ _ => fl flags F_DONTBIND = false -> VamBindCreate.bound_last v' slot false calls
+  | OCreateImg slot _ _ _ _ _ flags _ _ _ _ => fl flags F_DONTBIND = false -> VamBindCreate.bound_last v' slot true calls
+  | _ => True
+  end.
+Proof. intros c v o f v' calls Ha. exact (VamBindCreate.create_bind_valid c Ha v o f v' calls). Qed.
+Print Assumptions C08_allocator_create_bind_valid.
 End Allocator.
 
 (* second tie, allocator level: the flush / invalidate range computation of vam/allocation.go and the minimum
